@@ -31,7 +31,29 @@ ROLES = {
 WORKSPACE = ("blake_hash::", "groestl_aesni::", "jh_x86_64::", "skein_hash::")
 
 
+def _newtype_inner(it, t):
+    """(index, type) of the single non-empty field of a workspace newtype wrapper (e.g. Jh256(JhCore)), else None."""
+    d = it.ty.get(t)
+    if d.get("kind") != "struct" or not t.startswith(WORKSPACE):
+        return None
+    big = [(i, fl["ty"]) for i, fl in enumerate(d["variants"][0]["fields"]) if it.ty.size_bits(fl["ty"]) > 0]
+    if len(big) == 1 and big[0][1].startswith(WORKSPACE) and it.ty.get(big[0][1]).get("kind") == "struct":
+        return big[0]
+    return None
+
+
 def by_name(it, v, t, name):
+    try:
+        return _by_name(it, v, t, name)
+    except Undecided:
+        inner = _newtype_inner(it, t)
+        if inner is None:
+            raise
+        i, ti = inner
+        return by_name(it, it.as_agg(v, t).f[i], ti, name)
+
+
+def _by_name(it, v, t, name):
     d = it.ty.get(t)
     fields = d["variants"][0]["fields"]
     role = ROLES.get(name)
@@ -47,7 +69,16 @@ def by_name(it, v, t, name):
 
 
 def with_field(it, v, t, name, new):
-    sub, ft, i = by_name(it, v, t, name)
+    try:
+        sub, ft, i = _by_name(it, v, t, name)
+    except Undecided:
+        inner = _newtype_inner(it, t)
+        if inner is None:
+            raise
+        j, tj = inner
+        f = list(it.as_agg(v, t).f)
+        f[j] = with_field(it, f[j], tj, name, new)
+        return Agg(f)
     f = list(it.as_agg(v, t).f)
     f[i] = new
     return Agg(f)
@@ -329,8 +360,9 @@ def c04_update(report, cfg, rule="R17.1"):
         t = "blake_hash::%s" % name
         upd = find(f, r"^<blake_hash::%s as digest::Update>::update::<&\[u8\]>$" % name)
         hooks = {compress_hook_rx(w, f): compress_hook(ufn_name, ctype, variant)}
-        for p in (0, 1, bb - 1):
-            for ln in (0, 1, bb - p - 1 if bb - p - 1 > 1 else 2, bb - p, bb, 2 * bb + 3):
+        for p in (0, 1, 17, bb - 1):
+            # ... and long pieces (a threshold-based fast path would start somewhere): > 4 and > 8 blocks
+            for ln in (0, 1, bb - p - 1 if bb - p - 1 > 1 else 2, bb - p, bb, 2 * bb + 3, 4 * bb + bb - 14, 8 * bb + 3):
                 ikey = "%s::update pos=%d len=%d@%s" % (name, p, ln, cfg)
                 total += 1
 
